@@ -460,6 +460,8 @@ class SplineParser(object):
         self.measure_enum = 1
         self.tie_prev = None
         self.tie_next = None
+        # id(note) -> (opens a tie, closes a tie)
+        self.tie_marks = {}
         self.slurs_start = []
         self.slurs_end = []
 
@@ -525,16 +527,25 @@ class SplineParser(object):
         self.tie_prev = np.zeros(note_num, dtype=bool)
         notes = np.vectorize(self.meta_note_line, otypes=[object])(spline[note_mask])
         self.total_duration_values[note_mask] = self.note_duration_values
-        # Notes should appear in order within stream so shift tie_next by one to the right
-        # and tie next and inversingly tie_prev also
-        # Case of note to chord tie or chord to note tie is not handled yet
-        for note, to_tie in np.c_[
-            notes[self.tie_next], notes[np.roll(self.tie_next, -1)]
-        ]:
-            to_tie.tie_next = note
-            note.tie_prev = to_tie
-
         elements[note_mask] = notes
+
+        # Notes appear in order within the stream: a note that closes a tie
+        # ("]" or "_") is joined to the note of the same pitch whose tie is
+        # open ("[" or "_"), whether the notes stand alone or in a chord
+        open_ties = {}
+        for el in elements:
+            members = el[1] if isinstance(el, tuple) else [el]
+            for n in members:
+                if not isinstance(n, spt.Note):
+                    continue
+                opens, closes = self.tie_marks.get(id(n), (False, False))
+                key = (n.step, n.alter or 0, n.octave)
+                if closes and key in open_ties:
+                    to_tie = open_ties.pop(key)
+                    to_tie.tie_next = n
+                    n.tie_prev = to_tie
+                if opens:
+                    open_ties[key] = n
 
         # Find Slur indices, i.e. where spline cells contain "(" or ")"
         open_slur_mask = np.char.find(spline[note_mask], "(") != -1
@@ -773,6 +784,11 @@ class SplineParser(object):
         # return if list is empty
         if symbols == []:
             return
+        opens, closes = self.tie_marks.get(id(note), (False, False))
+        self.tie_marks[id(note)] = (
+            opens or "[" in symbols or "_" in symbols,
+            closes or "]" in symbols or "_" in symbols,
+        )
         if "[" in symbols:
             self.tie_prev[self.total_parsed_elements] = True
             # pop symbol and call again
